@@ -26,15 +26,15 @@ Proof.
     destruct (lookup (l_url l) (s_docs w)) as [e|] eqn:Ee.
     + assert (Hne : url_eqb u (l_url l) = false).
       { apply url_eqb_neq. intro E. subst u. congruence. }
-      set (e1 := rebase _ _ e) in H.
-      destruct (stale (l_ver l) (e_ver e1));
-        [inversion H; subst; clear H; cbn [s_docs set_docs]; rewrite lookup_upsert_neq by exact Hne; repeat split; auto|].
-      set (e2 := bump _ e1) in H.
+      destruct (stale (l_ver l) (e_ver e)); [inversion H; subst; clear H; repeat split; auto|].
+      set (e2 := rebase _ _ _) in H.
       destruct (e_lang e2) as [lg|]; [destruct (kind lg); [| destruct (e_ident e2 =? t_ident t) |]|];
         inversion H; subst; clear H; cbn [s_docs set_docs set_lock]; rewrite ?lookup_upsert_neq, ?lookup_remove_neq by exact Hne;
         repeat split; auto.
-    + unfold rebase in H. cbn [new_entry e_base] in H. rewrite dictv_eqb_refl in H.
-      destruct (l_ver l); cbn [stale e_ver bump e_set_ver e_lang new_entry] in H;
+    + cbn [new_entry e_ver] in H.
+      assert (St : stale (l_ver l) None = false) by (destruct (l_ver l); reflexivity). rewrite St in H.
+      unfold rebase in H.
+      destruct (l_ver l); cbn [bump e_set_ver e_base new_entry] in H; rewrite dictv_eqb_refl in H; cbn [e_set_ver e_lang new_entry] in H;
         inversion H; subst; clear H; cbn [s_docs set_docs]; rewrite lookup_remove; rewrite Hn;
         destruct (url_eqb u (l_url l')); repeat split; auto.
   - (* IIdentFinish *)
